@@ -126,7 +126,7 @@ func runSharded(r *core.Run, bin string, race bool, bound, threads, budget int, 
 			}
 			var o, e bytes.Buffer
 			cmd := exec.Command(bin, args...)
-			cmd.Env = append(os.Environ(), "GORACE=halt_on_error=0 exitcode=0 history_size=2", "GOMAXPROCS=2")
+			cmd.Env = append(os.Environ(), "GORACE=halt_on_error=0 exitcode=0 history_size=2", "GOMAXPROCS=1")
 			cmd.Stdout, cmd.Stderr = &o, &e
 			res[p].err = cmd.Run()
 			res[p].stderr = e.String()
@@ -205,16 +205,18 @@ func schedPart(r *core.Run, bs *builds) bool {
 	bin := filepath.Join(bs.plainDir, "c16sched")
 	complete := true
 	type cfg struct{ bound, threads int }
-	cfgs := []cfg{{0, 2}, {1, 2}, {2, 2}, {1, 3}}
+	// a DFS with bound b also visits every schedule with fewer preemptions (simplest first), so only the
+	// largest bound per thread count is run
+	cfgs := []cfg{{2, 2}, {1, 3}}
 	if r.Thorough() {
-		cfgs = append(cfgs, cfg{3, 2}, cfg{2, 3})
+		cfgs = []cfg{{3, 2}, {2, 3}}
 	}
 	for _, c := range cfgs {
 		budget := int(time.Until(r.Deadline).Seconds()) - 30
 		if budget < 12 {
 			budget = 12
 		}
-		if !runSharded(r, bin, false, c.bound, c.threads, budget, r.Workers/2) {
+		if !runSharded(r, bin, false, c.bound, c.threads, budget, r.Workers) {
 			complete = false
 			r.Set("sched_completed", fmt.Sprintf("cut at bound %d with %d threads", c.bound, c.threads))
 			break
@@ -227,16 +229,16 @@ func schedPart(r *core.Run, bs *builds) bool {
 		return false
 	}
 	rbin := filepath.Join(bs.raceDir, "c16sched")
-	rcfgs := []cfg{{0, 2}, {1, 2}}
+	rcfgs := []cfg{{1, 2}}
 	if r.Thorough() {
-		rcfgs = append(rcfgs, cfg{2, 2}, cfg{1, 3})
+		rcfgs = []cfg{{2, 2}, {1, 3}}
 	}
 	for _, c := range rcfgs {
 		budget := int(time.Until(r.Deadline).Seconds())
 		if budget < 20 {
 			budget = 20
 		}
-		if !runSharded(r, rbin, true, c.bound, c.threads, budget, r.Workers/2) {
+		if !runSharded(r, rbin, true, c.bound, c.threads, budget, r.Workers) {
 			complete = false
 			r.Set("race_sched_completed", fmt.Sprintf("cut at bound %d with %d threads", c.bound, c.threads))
 			break
